@@ -1,17 +1,23 @@
 import Genshi.Wire
 import Genshi.Model.PyXform
+import Genshi.Model.PyUnxf
 import Genshi.Model.PyLex
 import Driver.PyWire
 namespace Driver.C03
 open Genshi Genshi.Py Genshi.Sexp Driver.PyWire
 
 /-- `xform tree`: the tree after `ExpressionASTTransformer` (`unmodelled` outside the modelled syntax);
+    `unxf tree`: the rewriting undone;
     `lex text`: the chunks of `interpolation.lex` as `(T|F text)` pairs, `err`, or `unmodelled` -/
 def handle : List Sexp → Option Sexp
   | [.atom "xform", t] =>
       match decE t with
       | none => some (.atom "unmodelled")
       | some e => some (.list [.atom "ok", encE (xform e)])
+  | [.atom "unxf", t] =>
+      match decE t with
+      | none => some (.atom "unmodelled")
+      | some e => some (.list [.atom "ok", encE (unxf e)])
   | [.atom "lex", .str text] =>
       if Lex.unmodelled text then some (.atom "unmodelled") else
       match Lex.lex text with
